@@ -581,6 +581,45 @@ def make_o3():
     return o3
 
 
+# ------------------------------------------------------------------ O4: the bytes that are hashed (finite exploration, the codec is C code)
+BYTE_PAIRS = [("caf\udcc3\udca9", "caf\u00e9"), ("a\udc80b", "ab"), ("a\ud800", "a?"), ("x\udcff", "x\ufffd"), ("\udce2\udc82\udcac", "\u20ac"), ("p\udc41", "pA")]
+BYTE_SLOTS = ["name", "vars.x", "tasks.0.name", "key"]
+
+
+def digest_or_error(play):
+    try:
+        return PV.hash_play(PV.serialize_play(play))
+    except UnicodeError:
+        return None          # text that cannot be encoded is refused, never hashed under another spelling
+
+
+def bytes_pair(pi, slot):
+    a, b = BYTE_PAIRS[pi]
+    plays = []
+    for text in (a, b):
+        p_ = base_play(["n", "h", "sig", "x", "t"])
+        if slot == "key":
+            p_["tasks"][0][text] = 1
+        else:
+            set_path(p_, slot, text)
+        plays.append(p_)
+    d1, d2 = digest_or_error(plays[0]), digest_or_error(plays[1])
+    if d1 is not None and d1 == d2:
+        return ["the plays with %r and %r at %s have the same digest" % (a, b, slot)]
+    return []
+
+
+def make_o4():
+    def o4(en):
+        pi = en.choice("pair", len(BYTE_PAIRS))
+        slot = BYTE_SLOTS[en.choice("slot", len(BYTE_SLOTS))]
+        case = lambda mv: {"bytes_pair": pi, "slot": slot}  # noqa
+        en.note_sample(case)
+        bad = bytes_pair(pi, slot)
+        en.must_hold(not bad, "digest-covers", case, detail=bad)
+    return o4
+
+
 def _verify_play(play):
     old = PV.execute_verification
     PV.execute_verification = lambda cleaned, sig: (True, PV.hash_play(PV.serialize_play(cleaned)))
@@ -639,6 +678,9 @@ def obligations(tier):
                    desc="every single edit (%d kinds) of a play outside hosts / vars.insights_signature changes the digest text; edits inside do not" % len(EDITS),
                    bounds={"edits": [list(e) for e in EDITS], "changed strings": "old and new value symbolic, <= %d chars of the same alphabet, assumed different" % L},
                    encoded=enc[:6], budget_s=900 if thorough else 150, replay="edit", check_sample=True),
+        Obligation("O4-hashed-bytes", make_o4(), ["digest-covers"],
+                   desc="text with lone surrogates next to the text a lenient encoder would turn it into (surrogateescape / ignore / replace), as a value, a task name and a key: the two plays never share a digest (text that cannot be encoded is refused); finite exploration, the codec is C code",
+                   bounds={"pairs": [repr(x) for x in BYTE_PAIRS], "positions": BYTE_SLOTS}, encoded=[PV.serialize_play, PV.hash_play], budget_s=60, replay="collision", check_sample=True),
         Obligation("O3-exclusion-rules", make_o3(), ["exclusion-rules"],
                    desc="exclusion requests built from a segment pool; missing vars / signature / exclusion list; revocation look-up",
                    bounds={"segments": SEGS, "entries": "one entry of <= 3 pool segments with leading / trailing slash variants, optionally preceded by one of /hosts, /vars/x, /tasks, /vars/missing"},
@@ -649,6 +691,8 @@ def obligations(tier):
 
 # ------------------------------------------------------------------ native
 def _native(case):
+    if "bytes_pair" in case:
+        return bytes_pair(case["bytes_pair"], case["slot"])
     if "sequence" in case:
         bad = []
         for i in case["sequence"]:
